@@ -808,6 +808,9 @@ def gen_C13_directed(rng, k):
     P = [leaf_stmt(0, f, c)]
     if rng.random() < 0.5:
         P.append(C.read(0, rng.choice(["deltas", "values", "frame"])))
+    distq = rng.random() < 0.3      # statistics / distribution of the operand queried first (cached), of everything afterwards
+    if distq:
+        P += [C.query(0, q) for q in rng.sample(["var", "mean", "integral", "value_sums", "max"], 2)]
     d = F(0)
     kind = rng.choice(["shift", "shift", "copy", "neg", "addc", "mulc", "rmulc", "clipnone", "wherenone", "fills", "mask1", "sub0",
                        "diff", "addself", "agg", "agg", "agg1", "cliphi_at", "cliphi_at", "wherehi_at", "aggwin_at"])
@@ -867,8 +870,11 @@ def gen_C13_directed(rng, k):
         b = rng.choice(pts + [None, (a if a is not None else pts[0]) + F(1, 2)])
         P.append(C.layer_s(tgt, a, b, rng.choice([F(1), F(5), F(-1)])))
         P += [C.read(r_, "frame") for r_ in regs] + [C.read(r_, "deltas") for r_ in regs]
+        if distq:
+            for r_ in regs:
+                P += [C.query(r_, q) for q in rng.sample(["var", "mean", "integral", "value_sums", "max"], 2)]
     fl = flav(rng, has_nan(f))
-    return mk(f"C13/directed/{kind}/{k}", P, fl, tags=["directed-" + kind])
+    return mk(f"C13/directed/{kind}/{k}", P, fl, mode="tol" if distq else "exact", tags=["directed-" + kind])
 
 
 def gen_C13(rng, tier):
@@ -897,8 +903,8 @@ def gen_C13(rng, tier):
     return cases
 
 
-STAT_Q = ["integral", "mean", "var", "min", "max", "value_sums", "ecdf", "percentile", "fractile", "median", "mode", "hist",
-          "sample", "limit"]
+STAT_Q = ["integral", "mean", "var", "min", "max", "value_sums", "ecdf", "percentile", "fractile", "median", "mode", "hist", "hist",
+          "sample", "limit", "aggvar", "aggvar"]
 
 
 def stat_query(rng, r, kind):
@@ -914,6 +920,9 @@ def stat_query(rng, r, kind):
         return C.query(r, "fractile", ps=[F(0), F(1, 2), F(1)])
     if kind == "hist":
         return C.query(r, "hist", bins=[(F(-2), F(0)), (F(0), F(1)), (F(1), F(4))], closed=rng.choice(SIDES), stat=rng.choice(["sum", "probability"]))
+    if kind == "aggvar":      # a distribution statistic over a window: builds the distribution of another (clipped) function
+        lo = rng.choice([F(0), F(1), F(1, 2)])
+        return C.query(r, "agg", name=rng.choice(["var", "mean"]), lo=lo, hi=lo + rng.choice([F(1), F(2), F(3)]))
     return C.query(r, kind)
 
 
@@ -1390,7 +1399,7 @@ def gen_C17(rng, tier):
     # values so large that value x length overflows a Timedelta on the datetime-like domains: the mean (computed by the
     # fall-back path there) must still be the one of the numeric domains; the integral is not queried (it raises
     # OverflowError on those domains by design)
-    for k in range(max(4, n // 8)):
+    for k in range(max(4, n // 5)):
         big = F(2 ** rng.choice([34, 36, 40, 60, 60]))      # 2^60 x a length of a few units exceeds int64
         pts = sorted(rng.sample([F(j) for j in range(0, 12)], rng.randint(3, 5)))
         gaps = k % 2 == 0         # with undefined gaps (float values), or everywhere defined (values may be integer-typed)
